@@ -85,8 +85,27 @@ func jobBundle(w string, j int, pad int) *corecrl.Bundle {
 		return v.(*corecrl.Bundle)
 	}
 	b := &corecrl.Bundle{BaseCRL: makeCRL(jobNumber(w, j), time.Now().Add(240*time.Hour), pad, false)}
+	if hasDelta(jobNumber(w, j)) {
+		// every other bundle comes with a delta CRL of its own (number = base number + 5000)
+		b.DeltaCRL = makeCRL(jobNumber(w, j)+5000, time.Now().Add(240*time.Hour), 1, true)
+	}
 	bundleCache.Store(k, b)
 	return b
+}
+
+// hasDelta: whether the bundle whose base CRL has this number was stored with a delta CRL
+func hasDelta(n int64) bool { return (n/100+n%100)%2 == 1 }
+
+// consistent: base and delta are the two halves of ONE stored bundle (not a mixture of two)
+func consistent(base, delta *x509.RevocationList) bool {
+	if base == nil || base.Number == nil {
+		return false
+	}
+	n := base.Number.Int64()
+	if !hasDelta(n) {
+		return delta == nil
+	}
+	return delta != nil && delta.Number != nil && delta.Number.Int64() == n+5000
 }
 
 // near-identical on purpose: u2 differs from u1 by a trailing blank, by letter case or by a trailing slash (chosen per schedule)
@@ -137,6 +156,15 @@ func decodeEntryFile(path string) EntryObs {
 	if err != nil || rl.Number == nil {
 		return EntryObs{Kind: "undecodable"}
 	}
+	var dl *x509.RevocationList
+	if c.DeltaCRL != nil {
+		if dl, err = x509.ParseRevocationList(c.DeltaCRL); err != nil {
+			return EntryObs{Kind: "undecodable"}
+		}
+	}
+	if !consistent(rl, dl) {
+		return EntryObs{Kind: "undecodable"} // a mixed entry
+	}
 	n := int(rl.Number.Int64())
 	return EntryObs{Kind: "file", W: idxWriter[n/100], J: n % 100}
 }
@@ -173,8 +201,8 @@ func doGet(c *crl.FileCache, url string) ResObsC {
 		}
 		return ResObsC{Kind: "corrupt"}
 	}
-	if b == nil || b.BaseCRL == nil || b.BaseCRL.Number == nil {
-		return ResObsC{Kind: "corrupt"}
+	if b == nil || b.BaseCRL == nil || b.BaseCRL.Number == nil || !consistent(b.BaseCRL, b.DeltaCRL) {
+		return ResObsC{Kind: "corrupt"} // (also: base and delta of two different stored bundles)
 	}
 	n := int(b.BaseCRL.Number.Int64())
 	return ResObsC{Kind: "hit", W: idxWriter[n/100], J: n % 100}
